@@ -42,6 +42,7 @@ IVal(tp, i) ==
     [] tp = "Ints"    -> IF i % 2 = 1 THEN "1 2" ELSE "3"                \* list of xs:int
     [] tp = "IntsAnon" -> IF i % 2 = 1 THEN "1 2 3" ELSE "4"             \* ANONYMOUS: restriction(maxLength 3) of an anonymous list of xs:int
     [] tp = "IntOrStr" -> IF i % 2 = 1 THEN "5" ELSE "five"              \* union
+    [] tp = "ColorOrInt" -> IF i % 2 = 1 THEN "42" ELSE "dark blue"        \* NAMED union of an enumeration and a built-in type
     [] tp = "FixedStr" -> "kg"                                           \* xs:string with a value constraint fixed="kg": every occurrence says kg
     [] tp = "DefInt"   -> IF i % 2 = 1 THEN "7" ELSE "3"                  \* xs:int with default="7": explicit values, the default's and another
     [] OTHER -> "t"
